@@ -13,6 +13,11 @@ STRUCT_NAMES = ["Mail", "Person", "Asset", "a", "A", "B", "b", "Zed", "_x", "Foo
                 "Foo$", "Foo$Bar", "Mail$", "Mail$Box", "a$", "A$b", "Token", "Token$Meta", "T1$", "$", "$$"]
 MEMBER_NAMES = ["a", "b", "c", "from", "to", "value", "data", "nonce", "deadline", "owner", "spender", "x", "y", "kids", "next", "items", "name",
                 "wallet", "contents", "amount", "token", "flag", "id", "salt", "chainId", "version", "m1", "m2", "m3", "_p", "Q"]
+# names outside the Solidity identifier grammar: EIP-712's definitions are purely textual, so they are legal documents; the tool and
+# the reference must treat them mechanically alike (none ends in "]", so none can be read as an array type)
+WEIRD_STRUCT_NAMES = ["My Struct", "A,B", "P(x)", "\u00e9", "\u540d\u524d", "\u00dcn\u00ef", "a b", "c)d", "a.b", "a-b", "x\ty", "\"q\"", "u[int", "]x", "(", ")",
+                      ",", " ", "uint8 ", " uint8", "Uint8", "BYTES32", "string ", "\U0001f600", "a\u0301", "\u00e1", "Z\u200b"]
+WEIRD_MEMBER_NAMES = ["z z", "", "a,b", "x)y", "\u00e9", " ", "(", "uint8", "type", "name ", "\u200b", "\"", "\\", "a\nb", "\U0001f600"]
 UINT_W = list(range(8, 257, 8))
 
 
@@ -53,6 +58,11 @@ def rand_graph(rng, nstructs=None, shape=None):
     only if j > i; through dynamic arrays or [0] it may reference any struct, itself included (recursion)."""
     n = nstructs or rng.choice([1, 2, 2, 3, 3, 4, 5, 6, 8])
     names = rng.sample(STRUCT_NAMES, n)
+    weird = rng.random() < 0.12
+    if weird:
+        k = rng.randint(1, n)
+        for i, w in zip(rng.sample(range(n), k), rng.sample(WEIRD_STRUCT_NAMES, k)):
+            names[i] = w
     if n >= 3 and rng.random() < 0.25:
         a, b = rng.choice([("Foo", "Foo$Bar"), ("Mail", "Mail$Box"), ("Token", "Token$Meta"), ("T1", "T1$"), ("$", "$$"), ("Foo$", "Foo$Bar")])
         names = [x for x in names if x not in (a, b)][:n - 2]
@@ -62,6 +72,10 @@ def rand_graph(rng, nstructs=None, shape=None):
     for i, name in enumerate(names):
         k = rng.choice([0, 1, 2, 3, 3, 4, 5, 6])
         mnames = rng.sample(MEMBER_NAMES, k)
+        if weird and k:
+            mnames[rng.randrange(k)] = rng.choice(WEIRD_MEMBER_NAMES)
+            if len(set(mnames)) != len(mnames):
+                mnames = rng.sample(MEMBER_NAMES, k)
         members = []
         for mn in mnames:
             r = rng.random()
